@@ -667,7 +667,7 @@ class Interp:
                 self.guarded(env, [(t, True)], s.body)
                 self.guarded(env, [(t, False)], s.orelse)
             elif isinstance(s, ast.For):
-                if s.orelse or not isinstance(s.target, ast.Name):
+                if not isinstance(s.target, ast.Name):
                     raise Malformed("for form")
                 it = s.iter
                 if isinstance(it, ast.Call) and isinstance(it.func, ast.Name) and it.func.id == "range":
@@ -685,6 +685,11 @@ class Interp:
                     r = self.run_block(s.body, env)
                     if r is not None:
                         raise Reject("return inside a loop")
+                # the subset has no `break`: python runs the else suite once, after the last iteration
+                if s.orelse:
+                    r = self.run_block(s.orelse, env)
+                    if r is not None:
+                        raise Reject("return inside the else suite of a loop")
             elif isinstance(s, ast.Expr):
                 continue
             elif isinstance(s, ast.Pass):
